@@ -524,6 +524,13 @@ def gen_settings_case(rng, thorough_idx=None):
 
 def part_c(chk, rng, n):
     from e2e import runner, upstream, fsck as fsckmod
+    # corpus first: proxy credentials with blanks, '+', '%', ':' and '@' over http and https (the encodings of the userinfo
+    # differ exactly on these), independent of the PRNG stream
+    for scheme, pu, pp in (("http", "user name", "x y+z%20"), ("https", "a+b", "p@ss:w/rd#1?%")):
+        case = {"scheme": scheme, "ua": "apt-mirror2/verif", "urlcreds": None, "proxy": "on-creds", "h2off": True, "puser": pu, "ppass": pp}
+        if scheme == "https":
+            case.update(verify="bundle", cert=None, alpn_probe=False)
+        run_c_one(chk, case)
     for i in range(n):
         case = gen_settings_case(rng)
         run_c_one(chk, case)
